@@ -107,11 +107,11 @@ func runBatch(r *core.Run) {
 	ctx := context.Background()
 	isSMPP := c.Bool()
 	valid := []int{0, 8, 9, 15}
-	invalid := []int{1, 3, 4, 25, 99, 255}
+	invalid := []int{1, 3, 4, 25, 99, 255, 256, 264, 265, 271, -248, -241, 1<<32 + 8, 1<<32 + 15}
 	famOf := cmppFamily
 	if isSMPP {
 		valid = []int{0, 1, 3, 8, 99}
-		invalid = []int{2, 4, 9, 15, 255}
+		invalid = []int{2, 4, 9, 15, 255, 256, 257, 259, 264, 355, -248, -157, 1<<32 + 8, 1<<32 + 3}
 		famOf = smppFamily
 	}
 	mk := func(n int) datacoding.ProtocolDataCoding {
